@@ -6,7 +6,7 @@ import random
 from common import esc
 from framework import Cases
 from gen_ver import (
-    CLS, base_strings, mutate, parse_ok, pkg_strings, res_bool, res_int, res_obj, sem_strings, wargs, wire, wkw, wopt,
+    CLS, base_strings, mutate, parse_ok, pkg_strings, pkg_variant_group, res_bool, res_int, res_obj, sem_same_release, sem_strings, wargs, wire, wkw, wopt,
 )
 
 import fmtutil.__version as V
@@ -72,6 +72,21 @@ def build(r: random.Random, n: int, classes=("base", "sem", "pkg"), which=("pars
                 cs.add("ver_hasheq", [wire(a), wire(b)], res_bool(lambda a=a, b=b: hash(a) == hash(b)))
                 raw = r.choice(strs)
                 cs.add("ver_compare", [wire(a), "str", raw], res_int(lambda a=a, raw=raw: a.compare(raw)))
+            # pairs that tie on the release numbers (tags decide) and spelling variants of one version
+            special = []
+            if c == "sem":
+                for rel, ss in sem_same_release().items():
+                    oo = [o for o in (parse_ok(cls, s) for s in ss) if o is not None]
+                    special += [(r.choice(oo), r.choice(oo)) for _ in range(n // 3)]
+                    if rel == "1.0.0":
+                        special += [(a, b) for a in oo for b in oo]
+            if c == "pkg":
+                for _ in range(n // 2):
+                    oo = [o for o in (parse_ok(cls, s) for s in pkg_variant_group(r)) if o is not None]
+                    special += [(a, b) for a in oo[:3] for b in oo[:3]]
+            for a, b in special:
+                cs.add("ver_compare", [wire(a), "obj", wire(b)], res_int(lambda a=a, b=b: a.compare(b)))
+                cs.add("ver_hasheq", [wire(a), wire(b)], res_bool(lambda a=a, b=b: hash(a) == hash(b)))
             for o in objs[: n // 2]:
                 cs.add("ver_str", [wire(o)], lambda o=o: esc(str(o)))
         if "bump" in which and objs:
